@@ -41,8 +41,7 @@ proof fn lemma_rep_prefix(s: Seq<Seq<char>>, o0: Seq<Operation>, o1: Seq<Operati
 //@rule R15_collect
 pub fn operations(from: &str, to: &str, use_graphemes: bool) -> (res: VtResult<Vec<Operation>>)
     requires
-        ({ let f = chars_of(from, use_graphemes); let t = chars_of(to, use_graphemes);
-           is_clean(f) && is_clean(t) && strip_from(f, 0) == strip_from(t, 0) }),
+        ops_pre(chars_of(from, use_graphemes), chars_of(to, use_graphemes)),
     ensures
         ({ let f = chars_of(from, use_graphemes); let t = chars_of(to, use_graphemes);
            res.is_ok() && res.unwrap().len() == f.len() && rep(f, res.unwrap()@, f.len() as int) == t }),
